@@ -38,7 +38,24 @@ struct Proc {
     virtual uint64_t state() { return 0; }
     // a call that the processor must reject for a reason other than the frame length (-1: none defined, 1: threw, 0: accepted)
     virtual int misuse() { return -1; }
+    // copy semantics (mode copy): a copy-constructed / copy-assigned processor; nullptr / false if the class is not copyable
+    virtual std::unique_ptr<Proc> clone() { return nullptr; }
+    virtual bool assign_from(Proc&) { return false; }
 };
+#define VF_COPY_OPS(Self, ObjT)                                                                      \
+    std::unique_ptr<Proc> clone() override {                                                          \
+        if constexpr (std::is_copy_constructible_v<ObjT>) return std::unique_ptr<Proc>(new Self(*this)); \
+        else return nullptr;                                                                          \
+    }                                                                                                 \
+    bool assign_from(Proc& src) override {                                                            \
+        if constexpr (std::is_copy_assignable_v<ObjT>) {                                              \
+            o = static_cast<Self&>(src).o;                                                            \
+            return true;                                                                              \
+        } else {                                                                                      \
+            (void)src;                                                                                \
+            return false;                                                                             \
+        }                                                                                             \
+    }
 
 static arr_real mkreal(const double* in, int n, int stride = 1, int off = 0) {
     arr_real x(n);
@@ -65,6 +82,7 @@ struct RR : Proc {   // real in, real/complex out via process()
     RR(Obj ob, StateFn s) : o(std::move(ob)), sf(s) {}
     void run(const double* in, int n, std::vector<double>& out, std::vector<double>&) override { put(out, o.process(mkreal(in, n))); }
     uint64_t state() override { return sf(o); }
+    VF_COPY_OPS(RR, Obj)
 };
 template<class Obj, class StateFn>
 struct CC : Proc {   // complex in
@@ -73,6 +91,7 @@ struct CC : Proc {   // complex in
     CC(Obj ob, StateFn s) : o(std::move(ob)), sf(s) {}
     void run(const double* in, int n, std::vector<double>& out, std::vector<double>&) override { put(out, o.process(mkcmplx(in, n))); }
     uint64_t state() override { return sf(o); }
+    VF_COPY_OPS(CC, Obj)
 };
 template<class Obj, class StateFn>
 struct RG : Proc {   // real in, result struct {out, gain}
@@ -85,6 +104,7 @@ struct RG : Proc {   // real in, result struct {out, gain}
         put(out2, r.gain);
     }
     uint64_t state() override { return sf(o); }
+    VF_COPY_OPS(RG, Obj)
 };
 template<class Obj, class StateFn>
 struct CG : Proc {   // complex in, result struct {out, gain}
@@ -97,6 +117,7 @@ struct CG : Proc {   // complex in, result struct {out, gain}
         put(out2, r.gain);
     }
     uint64_t state() override { return sf(o); }
+    VF_COPY_OPS(CG, Obj)
 };
 template<class Obj, class StateFn>
 struct AR : Proc {   // adaptive, real (x,d) pairs -> {y,e}
@@ -109,6 +130,7 @@ struct AR : Proc {   // adaptive, real (x,d) pairs -> {y,e}
         put(out2, r.e);
     }
     uint64_t state() override { return sf(o); }
+    VF_COPY_OPS(AR, Obj)
     int misuse() override {   // x and d of different length
         try {
             o.process(arr_real{0.5, -0.25, 4.0}, arr_real{1.0, 2.0});
@@ -129,6 +151,7 @@ struct AC : Proc {   // adaptive, complex (x,d)
         put(out2, r.e);
     }
     uint64_t state() override { return sf(o); }
+    VF_COPY_OPS(AC, Obj)
     int misuse() override {
         try {
             o.process(arr_cmplx{cmplx_t(0.5, 1), cmplx_t(-3, 0.25)}, arr_cmplx{cmplx_t(1, 1)});
@@ -148,6 +171,7 @@ struct MAP : Proc {
         else put(out, o.process(mkcmplx(in, n)));
     }
     uint64_t state() override { auto& oo = o; return VF_TRY(oo, (uint64_t)HS(o._accum, mix(HS(o._buf), (uint64_t)o._pos)), (uint64_t)0); }
+    VF_COPY_OPS(MAP, MAFilter<T>)
 };
 
 struct Config {
@@ -594,6 +618,132 @@ int main(int argc, char** argv) {
                         }
                     }
                     ctx.worst("long: |delta|/tol", worst);
+                }
+            }
+        }
+        // ---------------- mode copy: copies of a processor.  The statement does not say whether a copy is an independent value or a
+        // handle to the same processor (the library has both kinds: arrays held by value, and shared_ptr pimpl classes), so both are
+        // accepted - but it must be ONE of them, consistently, for every call of the history: a copy that shares part of its state
+        // with its source (or keeps pointers into it) follows neither semantics.  Expectations are computed on the implementation
+        // itself: "value" = each object alone, fed its own calls (a copy inherits the calls made before it was taken); "handle" = one
+        // object fed all calls of the history in their global order.
+        if (ctx.take("instance.copy", P().kv("config", c.name))) {
+            const int G = 2;
+            auto sA = make_stream(c, 4 * G, 0);
+            auto sB = make_stream(c, 4 * G, 3, 5);
+            struct Step {
+                int obj;   // 0 = source, 1 = copy
+                int st;    // 0 = stream A, 1 = stream B
+                int frame;
+            };
+            struct Hist {
+                const char* name;
+                std::vector<Step> steps;
+                size_t copy_at;      // the copy is taken before step copy_at
+                bool by_assign;      // copy-assigned onto an object that has already processed a frame
+                bool destroy_src;    // the source is destroyed right after the copy (and another object is created and used)
+            };
+            const std::vector<Hist> H = {
+                {"copy after 2 frames, source destroyed, copy continues", {{0, 0, 0}, {0, 0, 1}, {1, 0, 2}, {1, 0, 3}}, 2, false, true},
+                {"copy after 2 frames, only the copy continues", {{0, 0, 0}, {0, 0, 1}, {1, 0, 2}, {1, 0, 3}}, 2, false, false},
+                {"copy after 2 frames, source fed other data, then the copy, then the source", {{0, 0, 0}, {0, 0, 1}, {0, 1, 0}, {0, 1, 1}, {1, 0, 2}, {1, 0, 3}, {0, 1, 2}}, 2, false, false},
+                {"copy after 2 frames, interleaved continuation", {{0, 0, 0}, {0, 0, 1}, {1, 0, 2}, {0, 0, 2}, {0, 0, 3}, {1, 0, 3}}, 2, false, false},
+                {"copy-assigned onto a used object after 2 frames, source fed other data", {{0, 0, 0}, {0, 0, 1}, {0, 1, 0}, {1, 0, 2}, {0, 1, 1}, {1, 0, 3}}, 2, true, false},
+                {"copy-assigned onto a used object, source destroyed", {{0, 0, 0}, {0, 0, 1}, {1, 0, 2}, {1, 0, 3}}, 2, true, true},
+                {"copy of a fresh object, source used first", {{0, 1, 0}, {0, 1, 1}, {1, 0, 0}, {1, 0, 1}}, 0, false, false},
+            };
+            auto feed = [&](Proc& p, const Step& st, std::vector<double>& o) {
+                std::vector<double> o1, o2;
+                const std::vector<double>& S = st.st == 0 ? sA : sB;
+                p.run(S.data() + (size_t)st.frame * G * c.granule * c.width, G * c.granule, o1, o2);
+                o = o1;
+                o.push_back((double)o1.size());
+                o.insert(o.end(), o2.begin(), o2.end());
+            };
+            bool copyable = true;
+            try {
+                auto probe = c.make();
+                if (!probe->clone()) copyable = false;
+            } catch (const std::exception&) {
+                copyable = false;
+            }
+            if (!copyable) ctx.note("copy: configurations whose class is not copyable (skipped)");
+            else {
+                ctx.nontrivial();
+                int reported = 0;
+                for (const Hist& h : H) {
+                    std::string err;
+                    std::vector<std::vector<double>> act(h.steps.size()), ev(h.steps.size()), eh(h.steps.size());
+                    bool assign_ok = true;
+                    try {
+                        // actual
+                        {
+                            std::unique_ptr<Proc> p = c.make(), q, filler;
+                            if (h.by_assign) {
+                                q = c.make();
+                                std::vector<double> junk;
+                                feed(*q, Step{1, 1, 3}, junk);
+                            }
+                            for (size_t i = 0; i < h.steps.size(); ++i) {
+                                if (i == h.copy_at) {
+                                    if (h.by_assign) assign_ok = q->assign_from(*p);
+                                    else q = p->clone();
+                                    if (h.destroy_src) {
+                                        p.reset();
+                                        filler = c.make();
+                                        std::vector<double> junk;
+                                        feed(*filler, Step{0, 1, 3}, junk);
+                                    }
+                                }
+                                if (!assign_ok) break;
+                                feed(h.steps[i].obj == 0 ? *p : *q, h.steps[i], act[i]);
+                            }
+                        }
+                        if (!assign_ok) continue;   // not copy-assignable
+                        // value semantics: each object alone
+                        for (int who = 0; who < 2; ++who) {
+                            auto r = c.make();
+                            for (size_t i = 0; i < h.steps.size(); ++i) {
+                                const bool inherited = who == 1 && i < h.copy_at && h.steps[i].obj == 0;
+                                if (h.steps[i].obj != who && !inherited) continue;
+                                std::vector<double> o;
+                                feed(*r, h.steps[i], o);
+                                if (h.steps[i].obj == who) ev[i] = o;
+                            }
+                        }
+                        // handle semantics: one object, global order
+                        {
+                            auto r = c.make();
+                            for (size_t i = 0; i < h.steps.size(); ++i) feed(*r, h.steps[i], eh[i]);
+                        }
+                    } catch (const std::exception& e) {
+                        err = e.what();
+                    }
+                    ++ctx.traces;
+                    ctx.transitions += 3 * h.steps.size();
+                    std::string ve, he;
+                    double worst = 0;
+                    bool bitid = true;
+                    for (size_t i = 0; i < h.steps.size() && err.empty(); ++i) {
+                        if (ve.empty()) {
+                            std::string e = cmp(ev[i], act[i], worst, bitid);
+                            if (!e.empty()) ve = fmt("call %zu (%s, stream %c frame %d): %s", i, h.steps[i].obj ? "copy" : "source", "AB"[h.steps[i].st], h.steps[i].frame, e.c_str());
+                        }
+                        if (he.empty()) {
+                            std::string e = cmp(eh[i], act[i], worst, bitid);
+                            if (!e.empty()) he = fmt("call %zu (%s): %s", i, h.steps[i].obj ? "copy" : "source", e.c_str());
+                        }
+                    }
+                    if (!err.empty() || (!ve.empty() && !he.empty())) {
+                        if (reported++ < 3)
+                            ctx.fail(c.name.substr(0, c.name.find('(')).c_str(),
+                                     !err.empty() ? std::string(h.name) + ": threw: " + err
+                                                  : std::string(h.name) + ": the outputs follow neither an independent copy [" + ve + "] nor a handle to the same processor [" + he + "]",
+                                     "a copy is an independent value or a handle to the same processor, consistently for every call of the history",
+                                     P().kv("history", h.name).kv("mode", "copy"));
+                    } else {
+                        ctx.note(ve.empty() ? "copy: histories consistent with value semantics" : "copy: histories consistent with handle semantics only");
+                    }
                 }
             }
         }
